@@ -40,7 +40,7 @@ DEVIATIONS = ('AliasCreating', 'SpBlobByName', 'InvalidateDoomed', 'LeakUnstored
 COMMIT_END = ('Finish', 'FinishThenFail', 'FailBegun', 'StoreRaises', 'StoreConflict', 'CommitSpConflict', 'CommitSpRaises',
               'CommitSpStoreRaises', 'FailStored', 'FailVoted')
 FAILURES = ('FailBeforeBegin', 'FailBegun', 'StoreRaises', 'StoreConflict', 'CommitSpConflict', 'CommitSpRaises', 'FailStored',
-            'FailVoted', 'FinishThenFail', 'SavepointRaises', 'CommitSpStoreRaises', 'BeginFails', 'AddWhileFailed')
+            'FailVoted', 'FinishThenFail', 'SavepointRaises', 'CommitSpStoreRaises', 'BeginFails', 'AddWhileFailed', 'ModifyWhileFailed')
 IDLE_FAILURES = ('FailBeforeBegin', 'BeginFails')      # failing commits that are one action: the caller's abort follows
 WATCHDOG_S = 30
 # which deviation of the code makes a clause of `mon` possible (the design, all four cleared, satisfies every clause)
@@ -316,13 +316,13 @@ _EXPORT = {}
 
 
 def export_bytes(v):
-    """an export file (ZEXP) holding one PersistentMapping with value v, made by a throw-away database"""
+    """an export file (ZEXP) holding one VObj with value v, made by a throw-away database"""
     if v not in _EXPORT:
         from ZODB.MappingStorage import MappingStorage
         db = ZODB.DB(MappingStorage())
         tm = transaction.TransactionManager()
         c = db.open(tm)
-        m = SHAPES['map'].new(v)
+        m = SHAPES['vobj'].new(v)
         c.root()['x'] = m
         tm.commit()
         f = io.BytesIO()
@@ -374,6 +374,10 @@ class ConnReplayer:
         root = self.c1.root()
         root['v'] = c['Val'][0]
         shapes = dict(opts.get('shapes') or {})
+        if 'mwf' in c['Ops']:
+            # an assignment that cannot register must change nothing: true of attribute assignment (persistent's
+            # setattr registers first), not of the containers (they mutate .data first - the persistent package's affair)
+            shapes = {n: 'vobj' for n in c['Obj']}
         self.shape = {ROOT: SHAPES['map']}
         self.objs = {ROOT: root}
         for n in c['Obj']:
@@ -875,6 +879,22 @@ class ConnReplayer:
             raise Mismatch('add.outcome', 'TransactionFailedError', 'returned')
         self.tm1.abort()
 
+    def do_ModifyWhileFailed(self, o, v, st):
+        """a commit of the (unjoined) connection's transaction fails, an attribute assignment before the abort, the abort"""
+        from transaction.interfaces import TransactionFailedError
+        if not self.c1._needs_to_join:
+            raise Mismatch('cn.joined', False, True)
+        self._join_rms()
+        self.rm_before.fail = 'tpc_begin'
+        self._commit_expect_failure()
+        try:
+            self.shape[o].set_v(self.objs[o], v)
+        except TransactionFailedError:
+            pass
+        else:
+            raise Mismatch('assignment.outcome', 'TransactionFailedError', 'returned')
+        self.tm1.abort()
+
     def do_ImportInTxn(self, o, st):
         """Connection.importFile of a one-object export; the returned object takes the place of model object o"""
         got = self.c1.importFile(io.BytesIO(export_bytes(self.c['Val'][0])))
@@ -882,7 +902,7 @@ class ConnReplayer:
             raise Mismatch('import.outcome', 'an object', None)
         self.by_id.pop(id(self.objs[o]), None)
         self.objs[o] = got
-        self.shape[o] = SHAPES['map']
+        self.shape[o] = SHAPES['vobj']
         self.by_id[id(got)] = o
 
     def after_failure(self):
